@@ -245,6 +245,26 @@ fn make_event(m: &sim::Model, inv: &crate::maps::Inv, rng: &mut Rng, kind: u64, 
             }
             "PWB message with the end-of-message flag on an intermediate chunk too"
         }
+        20 => {
+            // one chunk (not the first) of a multi-chunk PWB message travels in a bank named for another known board
+            let mut done = false;
+            let names: Vec<(String, u8)> = banks.iter().filter(|b| b.0.starts_with("PC")).map(|b| (b.0.clone(), b.1[10])).collect();
+            for (nm, chip) in names {
+                let idxs: Vec<usize> = (0..banks.len()).filter(|k| banks[*k].0 == nm && banks[*k].1[10] == chip).collect();
+                if idxs.len() >= 2 {
+                    let want = 1 + (idx as u16 % (idxs.len() as u16 - 1));
+                    let k = idxs.iter().copied().find(|k| u16::from_le_bytes([banks[*k].1[12], banks[*k].1[13]]) == want).unwrap();
+                    let other = crate::refs::PWB_BOARDS.iter().map(|b| format!("PC{}", b.0)).find(|n| *n != nm).unwrap();
+                    banks[k].0 = other;
+                    done = true;
+                    break;
+                }
+            }
+            if !done {
+                banks.retain(|b| b.0 != "ATAT");
+            }
+            "one chunk of a PWB message in a bank named for another board"
+        }
         19 => {
             // the channels of one (board, chip) message split over TWO complete messages (each with chunk ids 0..n-1 and
             // its own end-of-message flag) under the same label: their chunks interleave under permutation
@@ -324,7 +344,7 @@ fn make_event(m: &sim::Model, inv: &crate::maps::Inv, rng: &mut Rng, kind: u64, 
 fn run(ctx: &mut Ctx) {
     let m = sim::Model::load(&repo_root());
     let inv = crate::maps::inverse(u32::MAX);
-    let n_events = ctx.tier.pick(33, 120);
+    let n_events = ctx.tier.pick(34, 120);
     let shard = ctx.shard as u64;
     // NOTE: every shard processes *all* events (the comparison across processes is the point);
     // only the permutations differ between shards.
@@ -338,9 +358,9 @@ fn run(ctx: &mut Ctx) {
         }
         ctx.cur_case = i;
         let mut rng = ctx.rng_for("events", i);
-        // the 20 kinds once each, then valid events only (odd ones with per-packet metadata, the spread of the PWB trigger
+        // the 21 kinds once each, then valid events only (odd ones with per-packet metadata, the spread of the PWB trigger
         // timestamps cycling through 8, 0, 4, 1, 9, 1000, 5, unrelated)
-        let (banks, what) = make_event(&m, &inv, &mut rng, if i < 20 { i } else { 0 }, i);
+        let (banks, what) = make_event(&m, &inv, &mut rng, if i < 21 { i } else { 0 }, i);
         let groups = {
             let mut g: Vec<&str> = banks.iter().filter(|b| b.0.starts_with("PC")).map(|b| &b.0[..]).collect();
             g.sort();
